@@ -61,8 +61,43 @@ def gen_statements(rng):
         ("derived-agg", f"SELECT d.b, d.c FROM (SELECT b, COUNT(*) AS c FROM t GROUP BY b) AS d WHERE d.c > {n}"),
         ("distinct-order", "SELECT DISTINCT s FROM t ORDER BY s"),
     ]
-    k = 14
-    return rng.sample(S, k) if k < len(S) else S
+    # ONE TABLE IN SEVERAL ROLES, IN BOTH VISITING ORDERS. The walk visits a node's inputs, then the subquery plans of its
+    # expressions; a scan inside a subquery EXPRESSION is never pruned (all columns), the other scans of the same table are.
+    # The all-columns scan reads a column (u.w / t.b) that no pruned scan of that table reads, and it stands in an EARLIER
+    # union branch / join input than the pruned scans ("all first"), in a later one ("all last"), or between two.
+    sub_w = "(SELECT MIN(w) FROM u)"
+    M = [
+        ("multi-union-scalar-first", f"SELECT s FROM t WHERE a + 5 > {sub_w} UNION ALL SELECT v FROM u WHERE k = {n % 4}"),
+        ("multi-union-scalar-last", f"SELECT v FROM u WHERE k = {n % 4} UNION ALL SELECT s FROM t WHERE a + 5 > {sub_w}"),
+        ("multi-union-select-list-first", f"SELECT id, (SELECT MAX(w) FROM u) AS m FROM t WHERE a = {n} UNION ALL SELECT k, k FROM u WHERE v = 'p'"),
+        ("multi-union-select-list-last", f"SELECT k, k FROM u WHERE v = 'p' UNION ALL SELECT id, (SELECT MAX(w) FROM u) AS m FROM t WHERE a = {n}"),
+        ("multi-union-in-first", f"SELECT id FROM t WHERE b IN (SELECT k FROM u WHERE w > {m}) OR a = {n} UNION ALL SELECT k FROM u WHERE v = 'q'"),
+        ("multi-union-in-last", f"SELECT k FROM u WHERE v = 'q' UNION ALL SELECT id FROM t WHERE b IN (SELECT k FROM u WHERE w > {m}) OR a = {n}"),
+        ("multi-union-exists-first", f"SELECT id FROM t WHERE EXISTS (SELECT 1 FROM u WHERE u.k = t.b AND u.w > {m}) OR a = {n} "
+                                     f"UNION ALL SELECT k FROM u WHERE v = 'r'"),
+        ("multi-union-exists-last", f"SELECT k FROM u WHERE v = 'r' UNION ALL SELECT id FROM t WHERE EXISTS "
+                                    f"(SELECT 1 FROM u WHERE u.k = t.b AND u.w > {m}) OR a = {n}"),
+        ("multi-leftjoin-sub-in-left", f"SELECT DISTINCT d.id, u.v FROM (SELECT id, b FROM t WHERE a + 5 > {sub_w}) AS d LEFT JOIN u ON d.b = u.k"),
+        ("multi-leftjoin-sub-in-right", f"SELECT DISTINCT u.v, d.id FROM u LEFT JOIN (SELECT id, b FROM t WHERE a + 5 > {sub_w}) AS d ON d.b = u.k"),
+        ("multi-derived-join", f"SELECT DISTINCT d1.id, d2.k FROM (SELECT id, b FROM t WHERE a + 5 >= {sub_w}) AS d1 "
+                               f"JOIN (SELECT k FROM u WHERE v = 'p') AS d2 ON d1.b = d2.k"),
+        ("multi-derived-join-swapped", f"SELECT DISTINCT d1.id, d2.k FROM (SELECT k FROM u WHERE v = 'p') AS d2 "
+                                       f"JOIN (SELECT id, b FROM t WHERE a + 5 >= {sub_w}) AS d1 ON d1.b = d2.k"),
+        ("multi-select-list-in-join-input", "SELECT DISTINCT d.id, d.m, u.v FROM (SELECT id, b, (SELECT MAX(w) FROM u) AS m FROM t) AS d "
+                                            "LEFT JOIN u ON d.b = u.k"),
+        ("multi-three-scans-all-middle", f"SELECT v FROM u WHERE k = 1 UNION ALL SELECT s FROM t WHERE a + 5 > {sub_w} "
+                                         f"UNION ALL SELECT v FROM u WHERE k = 2"),
+        ("multi-four-scans", f"SELECT s FROM t WHERE a + 5 > {sub_w} UNION ALL SELECT v FROM u WHERE k = 1 UNION ALL "
+                             f"SELECT s FROM t WHERE b + 4 < (SELECT MAX(w) FROM u) UNION ALL SELECT v FROM u WHERE k = 3"),
+        ("multi-self-join-sub-first", "SELECT id FROM t WHERE a >= (SELECT MAX(b) FROM t) UNION ALL "
+                                      "SELECT t1.id FROM t t1 JOIN t t2 ON t1.id = t2.id WHERE t1.s = 'x'"),
+        ("multi-self-join-sub-last", "SELECT t1.id FROM t t1 JOIN t t2 ON t1.id = t2.id WHERE t1.s = 'x' UNION ALL "
+                                     "SELECT id FROM t WHERE a >= (SELECT MAX(b) FROM t)"),
+        ("multi-self-join-filter-sub", "SELECT DISTINCT t1.id FROM t t1 JOIN t t2 ON t1.id = t2.id WHERE t1.a >= (SELECT MAX(b) FROM t)"),
+        ("multi-x-roles", f"SELECT q FROM x WHERE p > {n % 3} UNION ALL SELECT id FROM t WHERE a > (SELECT MIN(p) FROM x) "
+                          f"UNION ALL SELECT q FROM x WHERE p = 0"),
+    ]
+    return rng.sample(S, 9) + rng.sample(M, 11)
 
 
 # ---------------- optimized plan (harness JSON) -> C45.Model term ----------------
@@ -154,8 +189,21 @@ def evaluate(ctx, groups, nodes_of):
                 pt = plan_term(r["oplan"], N)     # may allocate ids for derived names; the schema lists only table fields
                 terms.append(f"(let p := {pt} in let impl := {impl_term(r['gather'], N)} in "
                              f"[plan_eqb {schema} {len(N.tables)} impl p; spec_ok {schema} impl p; known_subquery_expr p; "
-                             f"plan_eqb_fix {schema} {len(N.tables)} impl p])")
+                             f"plan_eqb_fix {schema} {len(N.tables)} impl p; "
+                             # the order in which the (repaired) walk meets the scans of one table
+                             f"all_then_narrower (collect_fix {schema} p); narrower_then_all (collect_fix {schema} p); "
+                             f"all_in_middle (collect_fix {schema} p); "
+                             f"existsb (fun t => 2 <=? scans_of_table (collect_fix {schema} p) t) (seq 0 {len(N.tables)}); "
+                             f"existsb (fun t => 3 <=? scans_of_table (collect_fix {schema} p) t) (seq 0 {len(N.tables)})])")
     vals = vlib.coq_eval_list(REQ, "Local Open Scope nat_scope.", terms, "c45", shard=100)
+    shapes = [v[4:] for v in vals]
+    ctx.cov["scan_order_shapes"] = {
+        "statements_scanning_a_table_twice_or_more": sum(1 for s in shapes if s[3]),
+        "statements_scanning_a_table_three_times_or_more": sum(1 for s in shapes if s[4]),
+        "all_columns_scan_met_before_a_narrower_scan_of_the_table": sum(1 for s in shapes if s[0]),
+        "all_columns_scan_met_after_a_narrower_scan": sum(1 for s in shapes if s[1]),
+        "all_columns_scan_between_two_narrower_scans": sum(1 for s in shapes if s[2])}
+    vals = [v[:4] for v in vals]
     # which walk is the tree's? As coded (children() only) or the repaired one (.work/fixes/c45-gather-subquery-exprs.diff)?
     # The two differ only inside the recorded class; the engine must side with ONE of them on every statement.
     coded = sum(1 for v in vals if v[0] and not v[3])
@@ -218,11 +266,22 @@ def run(ctx):
     def classify(c):
         return CLASS if c.get("classes") else None
     ctx.judge([j[0] for j in judged], [j[1] for j in judged], [j[2] for j in judged], classify=classify, impl_outs=[j[4] for j in judged])
+    so = ctx.cov.get("scan_order_shapes", {})
+    if ctx.cov.get("engine_walks_subquery_exprs") and not ctx.violations and (
+            so.get("all_columns_scan_met_before_a_narrower_scan_of_the_table", 0) == 0
+            or so.get("all_columns_scan_met_after_a_narrower_scan", 0) == 0
+            or so.get("all_columns_scan_between_two_narrower_scans", 0) == 0):
+        ctx.violation({"kind": "coverage lost: no generated statement makes the walk meet an all-columns scan of a table before / "
+                               "after / between narrower scans of it, so the per-table merge is not exercised in every order",
+                       "scan_order_shapes": so}, found_input=False, tag="merge-order-coverage")
     if not proved and not ctx.violations:
         ctx.proof_broken_violation(f"{len(judged)} statements over generated catalogs, none violates the executable spec")
     return ctx.finish(
-        rule="catalogs of three Parquet tables t(id,a,b,s) u(k,v,w) x(p,q) (0..20 rows, several files / row groups), 14 statements "
-             "per catalog drawn from 28 templates with random constants: DISTINCT with WHERE-only columns, inner / left / comma / "
+        rule="catalogs of three Parquet tables t(id,a,b,s) u(k,v,w) x(p,q) (0..20 rows, several files / row groups), 20 statements "
+             "per catalog: 9 of 28 general templates and 11 of 19 one-table-in-several-roles templates (a table scanned 2-4 times: "
+             "scalar / IN / EXISTS subquery expression in the WHERE or SELECT list of an earlier or later UNION branch, left-join "
+             "input or derived table, with pruned scans of the same table elsewhere, the all-columns scan reading a column no pruned "
+             "scan reads; self-joins; both visiting orders and all-in-the-middle), random constants: DISTINCT with WHERE-only columns, inner / left / comma / "
              "three-table / self joins, COUNT(DISTINCT), IN / NOT IN / EXISTS / NOT EXISTS, scalar subqueries (WHERE, SELECT list, "
              "correlated, same table other column, HAVING, CASE, under UNION, under a window), IN under OR, CTEs, UNION [ALL], window "
              "functions, derived aggregates; each on 2 cluster sizes (quick) / 5 (thorough). Judged: the engine's GatherPlan equals "
